@@ -48,6 +48,11 @@ func c23(r *core.Run) {
 	r.Floor = 14
 	r.Rules = append(r.Rules, "packed-layout: per-path extraction of base+const accesses (index, slice, unsafe cast, copy) and cursor stride; writer/reader table comparison")
 	p := r.Prog("cgo")
+	ruleLocalBufferLayout(r, p)
+}
+
+// ruleLocalBufferLayout: packed record layout of LocalBuffer.Add / Next (shared by C21 and C23).
+func ruleLocalBufferLayout(r *core.Run, p *core.Prog) {
 	const rule = "packed-layout"
 	add := r.MustFunc(rule, pkgCapture, "LocalBuffer.Add")
 	next := r.MustFunc(rule, pkgCapture, "LocalBuffer.Next")
@@ -284,6 +289,24 @@ func c23(r *core.Run) {
 			}
 		}
 		r.Check(rule, "Add:"+ver+":fields-disjoint", p.Rel(add.Decl.Pos()), disjoint, orStr(dd, lay.String()))
+		// a field must be as wide as the parameter it stores (narrower: silent truncation)
+		sizes := types.SizesFor("gc", "amd64")
+		for i := 0; i < wsig.Params().Len(); i++ {
+			fld, ok := lay.fields[fmt.Sprintf("#%d", i)]
+			if !ok {
+				continue
+			}
+			pt := wsig.Params().At(i).Type()
+			if _, isSlice := pt.Underlying().(*types.Slice); isSlice {
+				continue
+			}
+			if b, ok := pt.Underlying().(*types.Basic); ok && b.Kind() == types.Bool {
+				continue
+			}
+			want := sizes.Sizeof(pt)
+			r.Check(rule, fmt.Sprintf("Add:%s:field#%d-width-matches-parameter", ver, i), fld.where, fld.width == want,
+				fmt.Sprintf("parameter %s (%s, %d bytes) is stored in %d bytes: larger values are truncated silently and read back altered", wsig.Params().At(i).Name(), pt.String(), want, fld.width))
+		}
 		r.Check(rule, "Add:"+ver+":all-parameters-stored", p.Rel(add.Decl.Pos()), len(lay.fields) == wsig.Params().Len(),
 			fmt.Sprintf("%d of %d parameters (incl. the version flag) are stored: %s", len(lay.fields), wsig.Params().Len(), lay))
 		// the space test must cover the record: hash length is a run-time value (len(epHash)); the constant part must cover extent - hashWidth
